@@ -76,6 +76,13 @@ def canon_message(m):
             v = [canon_community(c) for c in v]
         elif k == 6:
             v = ''
+        elif k in (14, 15) and isinstance(v, dict) and list(v.get('afi_safi') or []) == [25, 70]:
+            # an EVPN IP prefix route is given its segment identifier as the number 0 and decoded as ESI type 0, value 0
+            def _r(r):
+                if isinstance(r, dict) and r.get('type') == 5 and r['value'].get('esi') == 0:
+                    return dict(r, value=dict(r['value'], esi={'type': 0, 'value': 0}))
+                return r
+            v = {kk: ([_r(r) for r in vv] if kk in ('nlri', 'withdraw') and isinstance(vv, list) else vv) for kk, vv in v.items()}
         attrs[k] = v
     return dict(attr=gen.norm(attrs), nlri=gen.norm(m.get('nlri') or []), withdraw=gen.norm(m.get('withdraw') or []))
 
